@@ -2,6 +2,7 @@ package main
 
 import (
 	"fmt"
+	"hash/fnv"
 	"os"
 	"strings"
 
@@ -487,6 +488,19 @@ func (area) Gen(r *hx.Rng, n int, _ string, emit func(string)) {
 		if g.zip {
 			f = "zip"
 		}
-		emit(fmt.Sprintf("%s %o %s", f, mask, strings.Join(g.items, " ")))
+		line := fmt.Sprintf("%s %o %s", f, mask, strings.Join(g.items, " "))
+		// which exported function runs the archive is derived from the line itself (no draw from the generator, so the
+		// archives of a seed are the ones they always were): 1 line in 5 goes through Extract / ExtractArchive /
+		// ExtractArchiveWithMask, about 1 in 100 asks the *Archive* forms for a missing or a cut-off archive file
+		hs := fnv.New32a()
+		_, _ = hs.Write([]byte(line))
+		h := hs.Sum32() >> 3
+		switch {
+		case h%97 == 0:
+			line += " v:" + []string{"missing", "cut"}[(h/97)%2]
+		case h%5 == 0:
+			line += " v:" + []string{"x", "a", "am"}[(h/5)%3]
+		}
+		emit(line)
 	}
 }
